@@ -54,6 +54,8 @@ type verifRandReader struct {
 	calls *int
 }
 
+var verifShortAt int
+
 type verifRandErr struct{}
 
 func (verifRandErr) Error() string { return "verif: random source failed" }
@@ -63,9 +65,13 @@ func (r verifRandReader) Read(p []byte) (int, error) {
 	if verifParam("rand.mayfail", 1) == 1 && verifNondetBool("rand.fail") {
 		return 0, verifRandErr{}
 	}
-	// an io.Reader may return fewer bytes than asked for without an error (first call only, to bound the paths)
+	// an io.Reader may return fewer bytes than asked for without an error (one call, chosen among the first
+	// rand.short.maxcall calls, to bound the paths)
 	n := len(p)
-	if verifParam("rand.short", 0) == 1 && *r.calls == 1 && len(p) > 1 {
+	if verifParam("rand.short", 0) == 1 && *r.calls == 1 {
+		verifShortAt = 1 + verifChoose("rand.short.at", verifParam("rand.short.maxcall", 1))
+	}
+	if verifParam("rand.short", 0) == 1 && *r.calls == verifShortAt && len(p) > 1 {
 		switch verifChoose("rand.short", 3) {
 		case 1:
 			n = 1
